@@ -278,6 +278,17 @@ func typedUnits(which string) []engine.Unit {
 		}
 		laws(r, uni[complex128]{name: "complex128 (finite, no negative-real signed-zero points)", vals: plain}, which)
 	})
+	add("integer-kinds-in-any", func(r *engine.Rec) {
+		// integers of different widths under the any collator: their relative order is the collator's business, the
+		// preorder laws are not. (Whether two integers of different widths are "the same value" is not specified:
+		// the collator ranks them by number and compares them by type, so the C08 agreement clause is only
+		// checked on the canonical dynamic types - see the stated assumption.)
+		if which != "C07" {
+			return
+		}
+		laws(r, uni[any]{name: "any holding unsigned integers of different widths", vals: []any{uint8(0), uint8(1), uint8(44), uint8(255), uint16(1), uint16(255), uint16(256), uint16(300), uint32(511), uint(512), uint64(1), uint64(300), uint64(math.MaxUint64)}}, which)
+		laws(r, uni[any]{name: "any holding signed integers of different widths", vals: []any{int8(-128), int8(-1), int8(1), int16(-129), int16(-1), int16(300), int(-1), int(5), int64(-1), int64(5), int64(math.MinInt64), int64(math.MaxInt64)}}, which)
+	})
 	add("string", func(r *engine.Rec) {
 		laws(r, uni[string]{name: "string", vals: []string{"", "a", "ab", "b", "a\x00", "\xff", "é", "A"}, ref: ord[string]}, which)
 	})
@@ -823,6 +834,15 @@ func history(which string) func(r *engine.Rec) {
 			{"{a:{p,q},b:1},{a:{p,q},b:2}", val(map[string]any{"a": map[string]any{"p": int64(1), "q": int64(2)}, "b": int64(1)}), val(map[string]any{"a": map[string]any{"p": int64(1), "q": int64(2)}, "b": int64(2)})},
 			{"big map,big map", val(map[string]any{"a": int64(1), "b": int64(2), "c": int64(3), "d": int64(4), "e": int64(5)}), val(map[string]any{"a": int64(1), "b": int64(2), "c": int64(3), "d": int64(4), "e": int64(6)})},
 		}
+		// traversals that fail part way down for another reason than the depth limit (a value of a kind the collator
+		// does not rank, two and three levels down): whatever they leave behind must not show in later calls
+		ch := make(chan int)
+		pairs = append(pairs,
+			pair{"failing: channel two levels down", val([]any{[]any{ch}}), val([]any{[]any{ch}})},
+			pair{"failing: channel three levels down", lst([]any{[]any{ch}}), lst([]any{[]any{ch}})},
+			pair{"failing: func inside a map value", val(map[string]any{"k": []any{func() {}}}), val(map[string]any{"k": []any{func() {}}})},
+			pair{"[[[1]]],[[[2]]]", val([]any{[]any{[]any{int64(1)}}}), val([]any{[]any{[]any{int64(2)}}})},
+		)
 		for name, mk := range cyclicValues() {
 			mk := mk
 			pairs = append(pairs, pair{"cyclic: " + name, mk, mk})
@@ -895,7 +915,7 @@ func history(which string) func(r *engine.Rec) {
 		}
 		frontier := []node{{nil}}
 		seen[dump.Dump(age.Collator[any]().Make())] = true
-		for len(frontier) > 0 && len(seen) < 200 {
+		for len(frontier) > 0 && len(seen) < 400 {
 			n := frontier[0]
 			frontier = frontier[1:]
 			for _, op := range ops {
@@ -926,7 +946,8 @@ func history(which string) func(r *engine.Rec) {
 		// call that waits for it forever is a scheduler fact, not a hang of the harness.
 		for _, first := range ops {
 			for _, second := range ops {
-				if !strings.HasPrefix(pairs[first.P].name, "cyclic") && !strings.HasPrefix(pairs[second.P].name, "cyclic") {
+				if !strings.HasPrefix(pairs[first.P].name, "cyclic") && !strings.HasPrefix(pairs[second.P].name, "cyclic") &&
+					!strings.HasPrefix(pairs[first.P].name, "failing") && !strings.HasPrefix(pairs[second.P].name, "failing") {
 					continue // histories without a panicking call are covered by the search above
 				}
 				var res string
